@@ -334,7 +334,7 @@ def check_property(prop, tier, seed, reg):
             cur = R.unit.item_hashes()
             changed = base is None or any(base.get("hashes", {}).get(k) != v for k, v in cur.items()) \
                 or set(base.get("hashes", {})) != set(cur)
-            mine = [f for f in R.failures if prop in f["props"]]
+            mine = [f for f in R.failures if prop in f["props"] or P.get("count_all")]
             if not mine:
                 continue
             rest = []
